@@ -547,6 +547,11 @@ func (c *compiler) compile(tok *token) []instruction {
 		const sliceObj, sliceBegin, sliceEnd = 0, 1, 2
 		res = append(res, c.compile(tok.Tokens[sliceObj])...)
 		res = append(res, c.compile(tok.Tokens[sliceBegin])...)
+		if tok.Tokens[sliceEnd].Symbol == "(omitted)" {
+			res = append(res, instruction{Code: codePush, A: -1})
+			res = append(res, instruction{Code: codeSlice, A: 1}) // A: the end is the length
+			break
+		}
 		res = append(res, c.compile(tok.Tokens[sliceEnd])...)
 		res = append(res, instruction{Code: codeSlice})
 	case "func":
